@@ -53,6 +53,18 @@ P = {
          "rendezvous schedule imposed on real runs for every group size x plan position",
          "For group sizes 2..48 (quick: 9 sizes) x 4 positions x 1-2 commands the controller releases nobody until the whole group has arrived - exactly the adversarial schedule of the statement; every member must arrive and the run must then finish with all-success.",
          "Run failures unrelated to concurrency are attributed to C06 and counted as blocked.", "4/C16"),
+ "C02": (True, "px", "model_checking",
+         "explicit-state breadth-first search over repository x checkpoint histories, every state materialised with real git and the real binary",
+         "BFS over create/edit/delete/mv/git mv/add/commit/checkpoint operations with state hashing (commit ids canonicalised); every distinct state is replayed in a real scratch repository, checked for conformance with the model, and `analyze --changes` for the default range and every ordered commit pair is compared with the statement's set.",
+         "Linear histories of <=3 commits over three paths (one with a space and a non-ASCII character); states are merged by the model key, which the conformance check ties to the real repository.", "4/C02"),
+ "C07": (True, "px", "model_checking",
+         "explicit-state BFS over repository histories plus per-state edit/update trials on the real repository",
+         "Same BFS; in every state reached by `checkpoint update -p` analyze must report nothing and run must start nothing; from there every later single edit (fresh content, file creation with old or new content, deletion of a committed file; thorough: pairs) must re-flag exactly the affected targets and a second update must clear them.",
+         "As C02.", "4/C07"),
+ "C19": (True, "px", "model_checking",
+         "explicit-state BFS over update/show/delete/out-delete sequences interleaved with commits and edits",
+         "Same BFS; in every state `checkpoint show` must equal what the last successful update printed (or fail), updates record HEAD or the given id, and without a checkpoint analyze and run cover every target.",
+         "As C02.", "4/C19"),
 }
 
 TODO_REASON = "check not built yet in this round (design in DESIGN.md section 4); will be claimed once its explorer exists"
